@@ -9,8 +9,8 @@
 #ifndef N
 #define N 16          /* input bound: string is any NUL-terminated string of length < N */
 #endif
-#ifndef BMAX
-#define BMAX (6 * N + 1)   /* bound on a buffer left behind by an earlier call */
+#ifndef CV_CAP
+#define CV_CAP (6 * N + 2)  /* capacity of the modelled heap blocks (xalloc_guard.c); >= the largest request 6*(N-1)+1 */
 #endif
 
 /* ---- specification, written from the property statement ---- */
@@ -74,6 +74,8 @@ int cv_table_bound(void);
 void cv_use_bound_table(void);
 extern char *html_quote_buf;
 extern size_t html_quote_bufsize;
+void *xcalloc(size_t n, size_t sz);      /* xalloc_guard.c: fixed-capacity block, zeroed request, 0x5A guard bytes behind it */
+extern size_t cv_xcalloc_size;           /* ghost: size of the most recent request */
 
 size_t g;             /* ghost index: arbitrary; a statement about out[g] is a statement about every byte */
 
@@ -138,6 +140,7 @@ void h_table_lemma(void)
  *   NULL/0 or a live heap block of exactly bufsize = 6k+1 bytes (the two are chosen independently: a superset).
  * ensures: result == the static buffer, non-NULL; buffer invariant re-established; table bound with well-shaped entries;
  *   input not written; plus the per-target clauses. */
+static char *prior_buf; static size_t prior_size;
 static unsigned char snap_c; static unsigned snap_n; static char snap_s[6]; static _Bool snap_valid;
 static void hq_requires(char *string)
 {
@@ -156,20 +159,23 @@ static void hq_requires(char *string)
         snap_s[0] = cv_seq_byte(c2, 0); snap_s[1] = cv_seq_byte(c2, 1); snap_s[2] = cv_seq_byte(c2, 2);
         snap_s[3] = cv_seq_byte(c2, 3); snap_s[4] = cv_seq_byte(c2, 4); snap_s[5] = cv_seq_byte(c2, 5);
     }
+    prior_buf = NULL; prior_size = 0;
     if (have) {
         size_t bs;
-        __CPROVER_assume(bs >= 1 && bs <= BMAX && bs % 6 == 1);   /* sizes are only ever 6*len+1 */
-        html_quote_buf = malloc(bs);
-        __CPROVER_assume(html_quote_buf != NULL);
+        __CPROVER_assume(bs >= 1 && bs <= 6 * (N - 1) + 1 && bs % 6 == 1);   /* sizes are only ever 6*len+1 */
+        html_quote_buf = xcalloc(bs, 1);       /* a block left behind by an earlier call (contents irrelevant) */
         html_quote_bufsize = bs;
+        prior_buf = html_quote_buf; prior_size = bs;
     }
 }
 static void hq_ensures_common(const char *string, char *r)
 {
     __CPROVER_assert(r != NULL && r == html_quote_buf, "ensures: returns the static buffer, never NULL");
-    __CPROVER_assert(__CPROVER_POINTER_OFFSET(html_quote_buf) == 0 &&
-                     __CPROVER_OBJECT_SIZE(html_quote_buf) == html_quote_bufsize && html_quote_bufsize % 6 == 1,
-                     "ensures: static buffer invariant (a block of exactly bufsize bytes, bufsize = 6k+1) re-established");
+    __CPROVER_assert(__CPROVER_POINTER_OFFSET(html_quote_buf) == 0 && html_quote_bufsize % 6 == 1 &&
+                     html_quote_bufsize == (html_quote_buf == prior_buf ? prior_size : cv_xcalloc_size),
+                     "ensures: static buffer invariant (bufsize is the requested size of the block, bufsize = 6k+1) re-established");
+    __CPROVER_assert(!(g >= html_quote_bufsize && g < CV_CAP) || (unsigned char)r[g] == 0x5A,
+                     "ensures: no byte behind the requested bufsize bytes was written (guard bytes intact, ghost index)");
     __CPROVER_assert(cv_table_bound(), "ensures: escapeSequences is bound to the static table");
     cv_use_bound_table();
     __CPROVER_assert(!snap_valid || (cv_seq_len(snap_c) == snap_n && cv_seq_byte(snap_c, 0) == snap_s[0] && cv_seq_byte(snap_c, 1) == snap_s[1] &&
@@ -218,6 +224,7 @@ void h_roundtrip(void)
     cv_statics_reset();          /* first-call state; buffer reuse is covered by quote_safe */
     char *r = html_quote(x);
     size_t lx = strlen(x), lr = strlen(r);
+    __CPROVER_assert(lr < html_quote_bufsize && html_quote_bufsize == cv_xcalloc_size, "ensures: terminated inside the requested block");
     size_t i = 0, j = 0;
     _Bool same = 1;
     while (i < lr && j < N) {     /* at most N-1 units */
